@@ -129,7 +129,13 @@ fn run_scene(case: &Value, idx: usize, rng: &mut Rng) -> Value {
     let roof = (idx / 1013 + idx / rots.len()) % 2 == 1;
     let fr = Frame { roof, c: rots[rot].0, s: rots[rot].1, t: [rng.range(-20, 20) as f64, rng.range(-20, 20) as f64, rng.range(0, 10) as f64] };
     let mut m = Model::default();
-    let wpos = fr.g([0.0, 0.0, 0.0]);
+    // the wall's outline may start anywhere in the wall's own coordinates (window offsets are measured from its first
+    // corner): in a third of the poses the outline is listed from (2.0, 0.5) and the wall origin moved back accordingly
+    let w0 = &sc["win"];
+    let shift = (idx / 5) % 3 == 1 || std::env::var("VERIF_SHIFT_ALL").is_ok();
+    let _ = w0;
+    let (ox, oy) = if shift { (2.0f64, 0.5f64) } else { (0.0, 0.0) };
+    let wpos = fr.g([-ox / U, 0.0, -oy / U]);
     let wall = wall_of(
         "W",
         if idx % 5 == 4 { BoundaryType::ADIABATIC } else { BoundaryType::EXTERIOR },
@@ -137,7 +143,7 @@ fn run_scene(case: &Value, idx: usize, rng: &mut Rng) -> Value {
             tilt: if roof { 0.0 } else { 90.0 },
             azimuth: fr.theta_deg() as f32,
             position: Some(point![wpos[0] as f32, wpos[1] as f32, wpos[2] as f32]),
-            polygon: vec![point![0.0, 0.0], point![(80.0 * U) as f32, 0.0], point![(80.0 * U) as f32, (60.0 * U) as f32], point![0.0, (60.0 * U) as f32]],
+            polygon: vec![point![ox as f32, oy as f32], point![(ox + 80.0 * U) as f32, oy as f32], point![(ox + 80.0 * U) as f32, (oy + 60.0 * U) as f32], point![ox as f32, (oy + 60.0 * U) as f32]],
         },
     );
     let w = &sc["win"];
@@ -203,7 +209,7 @@ fn run_scene(case: &Value, idx: usize, rng: &mut Rng) -> Value {
     };
     let x25 = sl as f64 * 25.0;
     json!({"ev": "Scene", "sc": sc, "ok": ok, "panic": panic, "got25": if x25.is_finite() { x25.round() as i64 } else { -1 },
-        "exact": x25.is_finite() && (x25 - x25.round()).abs() < 1e-3, "nrays": n, "rot": rot, "roof": roof, "nfar": nfar, "ghost": ghost, "kinds": kinds})
+        "exact": x25.is_finite() && (x25 - x25.round()).abs() < 1e-3, "nrays": n, "rot": rot, "roof": roof, "nfar": nfar, "ghost": ghost, "kinds": kinds, "shift": shift})
 }
 
 // ------------------------------------------------------------------------------------------------ parts B and C
